@@ -254,7 +254,7 @@ fn gen(t: &mut Tape, tier: Tier) -> Scenario {
     opts.wrapper = t.below(2) == 1;
     opts.store(&mut sc);
     sc.set_i("rk", [RK_SIM, RK_SLICE, RK_CURSOR, RK_BUFREADER][t.below(4) as usize]);
-    sc.set_i("bufcap", t.range(1, 300));
+    sc.set_i("bufcap", gen::draw_bufcap(t, 300));
     sc.set_l("src_script", gen::draw_script(t));
     sc.set_l("sink_script", gen::draw_script(t));
     sc
